@@ -365,11 +365,16 @@ def record_schedule(mod, seed: int, nsteps: int):
         cands = sched.candidates(p, random.Random(s), cfgs)
         order = list(range(len(cands)))
         rng.shuffle(order)
-        # prefer the operations whose implementation iterates sets / sorts symbols
-        pref = {"simplify": 0, "unroll_buffer": 0, "fission": 0, "lift_alloc": 0, "extract_subproc": 0, "stage_mem": 0,
-                "specialize": 1, "inline": 1, "divide_loop": 1, "unroll_loop": 1, "bind_expr": 1, "fuse": 1}
-        if rng.random() < 0.6:
+        # half of the time prefer the operations whose implementation iterates sets / sorts symbols / renames
+        pref = {"simplify": 0, "unroll_buffer": 0, "fission": 0, "lift_alloc": 0, "stage_mem": 0, "inline": 0,
+                "specialize": 0, "divide_loop": 0, "unroll_loop": 0, "bind_expr": 0, "fuse": 0, "reorder_loops": 0,
+                "expand_dim": 0, "divide_with_recompute": 0, "cut_loop": 0, "mult_loops": 0, "lift_scope": 0,
+                "extract_subproc": 1, "sink_alloc": 1, "resize_dim": 1, "rearrange_dim": 1, "divide_dim": 1}
+        if rng.random() < 0.5:
             order.sort(key=lambda i: pref.get(cands[i][0], 2))
+        # never the same operation three times in a row
+        if len(steps) >= 2 and steps[-1]["op"] == steps[-2]["op"]:
+            order = [i for i in order if cands[i][0] != steps[-1]["op"]]
         done = False
         for i in order[:25]:
             op, descr, thunk = cands[i]
@@ -444,6 +449,11 @@ def child(jobfile: str, outfile: str):
         sid = s["id"]
         t1 = time.time()
         try:
+            if "src" not in s:  # recorder: generate the program here, under the recorder's fixed PYTHONHASHSEED
+                import random
+                import progen
+                g = progen.ProgGen(random.Random(s["gen"]["seed"]), s["gen"]["uid"], s["gen"]["features"])
+                s["src"] = g.module().replace(progen.HEADER, "")
             src = layout(s["src"].replace("PRE_K", str(var.get("pre_k", 0))), int(var.get("layout", 0)), "s%d" % n)
             mod = _load(src, "c18_sess_%d" % n, scratch)
             if s["kind"] == "hand":
@@ -458,8 +468,11 @@ def child(jobfile: str, outfile: str):
                 out.update(outputs_of([p] + subs[:2], [[p], [p] + subs, list(reversed(subs)) + [mod.foo]]))
                 if job.get("record"):
                     out["steps"] = s["steps"]
+                    out["src"] = s["src"]
         except Exception as e:
             out = {"err:session": errtext(e), "_trace": traceback.format_exc()[-1500:]}
+            if job.get("record") and "src" in s:
+                out["src"] = s["src"]
         out["_t"] = round(time.time() - t1, 2)
         res["sessions"][sid] = out
     del keep
